@@ -25,7 +25,7 @@ RULE = (
 )
 ASSUMPTIONS = ["R-layout / R-codec are the trusted references", "`_offset_` is only queried where the set is small enough to expand"]
 MIN_MONITORS = {"fields-in-order": 4000, "offset-set": 12000, "placement-member": 8000, "element-offsets": 800,
-                "print-offset": 1500, "print-bit-length": 400, "print-extent": 400}
+                "print-offset": 1500, "print-bit-length": 400, "print-extent": 400, "print-offset-service": 1500}
 THOROUGH_MIN_SCALE = 8
 
 
@@ -233,12 +233,82 @@ def part_b(ctx, pydsdl, u, seed, workdir, case):
                     key[0], key[1], [v[:200] for v in got[:3]], sorted(exp)[:80]), dict(case, extra=extra))
 
 
+def part_c(ctx, pydsdl, u, seed, workdir, case):
+    """A service whose request and response sections are two definitions of the universe, `_offset_` printed after every
+    admissible field position of BOTH sections (the sections must not influence each other)."""
+    rng = random.Random(seed ^ 0xC0FFEE)
+    lay = Layout(u)
+    if len(u) < 1:
+        return
+    i, j = rng.randrange(len(u)), rng.randrange(len(u))
+    lines, expected = [], {}
+    for si, idx in enumerate((i, j)):
+        d = u[idx]
+        if si == 1:
+            lines.append("---")
+        if d["kind"] == "union":
+            lines.append("@union")
+        positions = set(range(len(d["fields"]) + 1)) if d["kind"] == "struct" else {len(d["fields"])}
+
+        def emit(p):
+            tree = lay.struct_offset_after(idx, p)
+            try:
+                if R.ref_max(tree) > 50000:
+                    raise R.TooBig
+                em = {}
+                mask = R.ref_expand_mask(tree, limit_bits=1 << 16, _memo=em)
+                if R.popcount(mask) > 600:
+                    raise R.TooBig
+                R.CostMeter(80000).expand(tree, em)
+            except R.TooBig:
+                return
+            # several queries at one position: a stale or shared cache would show up here
+            for _ in range(rng.choice([1, 1, 2])):
+                lines.append("@print _offset_")
+                expected[len(lines)] = set(R.bits(mask))
+
+        if 0 in positions:
+            emit(0)
+        for n, f in enumerate(d["fields"], 1):
+            lines.append("void%d" % f["pad"] if "pad" in f else "%s %s" % (GT.render_type(f["type"], u), f["name"] + ("q" if si else "")))
+            if n in positions and rng.random() < 0.8:
+                emit(n)
+        lines.append("@sealed" if d["sealed"] else "@extent %d" % d["extent"])
+    if not expected:
+        return
+    text = "\n".join(lines) + "\n"
+    root = workdir / "c"
+    deliveries = []
+    try:
+        GT.write_universe(u, root)
+        p = root / GT.ROOT / "Svc.1.0.dsdl"
+        p.write_text(text)
+        try:
+            pydsdl.read_namespace(root / GT.ROOT, [], print_output_handler=lambda pp, l, t: deliveries.append((str(pp), l, t)))
+        except pydsdl.InvalidDefinitionError as ex:
+            ctx.violation("C08/intrinsic-rejected", "service with _offset_ queries rejected: %r\n%s" % (ex, text), dict(case, service=text))
+            return
+        mine = str(p.resolve())
+        seen = {}
+        for pp, l, t in deliveries:
+            if str(pp) == mine or pp.endswith("Svc.1.0.dsdl"):
+                seen.setdefault(l, []).append(t)
+        for line, exp in expected.items():
+            ctx.mon("print-offset-service")
+            got = seen.get(line)
+            if not got or not any(parse_printed_set(v) == exp for v in got):
+                ctx.violation("C08/_offset_/service-section", "service line %d: _offset_ printed %s expected %s\n%s" % (line, got, sorted(exp)[:60], text), dict(case, service=text))
+    finally:
+        shutil.rmtree(root, ignore_errors=True)
+
+
 def run_case(ctx, pydsdl, u, small, text_ok, seed, workdir):
     case = {"universe": u, "small": small, "text_ok": text_ok, "seed": seed}
     objs = GT.construct_universe(pydsdl, u)
     part_a(ctx, pydsdl, u, objs, small, seed, case)
     if text_ok:
         part_b(ctx, pydsdl, u, seed, workdir, case)
+        part_c(ctx, pydsdl, u, seed, workdir, case)
 
 
 def run_shard(ctx):
